@@ -5,6 +5,7 @@ package world
 
 import (
 	"bytes"
+	"encoding/json"
 	"context"
 	"errors"
 	"fmt"
@@ -60,6 +61,8 @@ type Transport struct {
 	Observe func(path string, reqBody []byte, status int, respBody []byte)
 	// Requests counts served requests.
 	Requests atomic.Int64
+	// Panics counts handler panics converted into 500 responses.
+	Panics atomic.Int64
 }
 
 // RoundTrip implements http.RoundTripper.
@@ -96,7 +99,21 @@ func (t *Transport) RoundTrip(req *http.Request) (*http.Response, error) {
 	r2.Body = io.NopCloser(bytes.NewReader(body))
 	r2.RequestURI = req.URL.RequestURI()
 	rec := httptest.NewRecorder()
-	h.ServeHTTP(rec, r2)
+	func() {
+		// net/http recovers a panicking handler and aborts the connection; the
+		// in-process transport reports it as a distinguishable 500 instead of
+		// dying, so that the checks can name the request that caused it.
+		defer func() {
+			if p := recover(); p != nil {
+				t.Panics.Add(1)
+				rec = httptest.NewRecorder()
+				rec.WriteHeader(500)
+				msg, _ := json.Marshal(fmt.Sprint(p))
+				_, _ = rec.WriteString(`{"code":"handler_panic","message":` + string(msg) + `}`)
+			}
+		}()
+		h.ServeHTTP(rec, r2)
+	}()
 	t.Requests.Add(1)
 	res := rec.Result()
 	if obs != nil {
